@@ -133,8 +133,18 @@ def tat_error(gridname, op, tk, rk, tkw, rkw):
     Fr = full_space(grid, rk[0], rk[1], rkw)
     A = Z.dense(Z.boundary_operator(op, Sr, Sr, St, par))
     Af = Z.dense(Z.boundary_operator(op, Fr, Fr, Ft, par))
-    Tt = St.map_to_full_grid.toarray()
-    Tr = Sr.map_to_full_grid.toarray()
+    # T from the dof map and the multipliers over ALL elements of the grid (not from the library's map_to_full_grid and not restricted to the reported support: an
+    # element that carries part of a basis function belongs to the function whether or not the support table lists it)
+    def coefficient_map(S):
+        ns = S.number_of_shape_functions
+        T = np.zeros((ns * grid.number_of_elements, S.global_dof_count))
+        for E in range(grid.number_of_elements):
+            for f in range(ns):
+                if S.local_multipliers[E, f] != 0:
+                    T[ns * E + f, S.local2global[E, f]] += S.local_multipliers[E, f]
+        return T
+
+    Tt, Tr = coefficient_map(St), coefficient_map(Sr)
     return Z.relerr(A, Tt.T @ Af @ Tr), A.shape
 
 
